@@ -427,30 +427,36 @@ def decimal_cases(chk, rng, thorough):
         steps = [{"sql": f"create temp table d (id int, a decimal({p1},{s1}), b decimal({p2},{s2}))"},
                  {"sql": "insert into d values " + ",".join(f"({i}, '{dec_lit(a, s1)}'::decimal({p1},{s1}), '{dec_lit(b, s2)}'::decimal({p2},{s2}))" for i, (a, b) in enumerate(pairs)), "out": "count"},
                  {"sql": "select id, a, b from d"}]
-        # each op and each pair separately gated so that an overflow error of one pair does not hide the others:
+        # one case per operator (a panic ends a session: it must not hide the other operators); inside, every pair on its
+        # own first (one overflowing pair fails a whole-table statement), the announced result type from DESCRIBE so that
+        # an error can be judged, and the whole-table statement last
+        load = steps
         for op in "+-*":
-            steps.append({"sql": f"select id, a {op} b from d"})
-        case = {"id": cid, "exec": {"kind": "det", "policy": "random", "seed": n, "partitions": 2}, "steps": steps}
-        out.append((cid, case, ("dec", p1, s1, p2, s2, pairs)))
+            st = list(load) + [{"sql": f"describe select a {op} b as r from d"}]
+            for i in range(len(pairs)):
+                st.append({"sql": f"select id, a {op} b from d where id = {i}"})
+            st.append({"sql": f"select id, a {op} b from d"})
+            case = {"id": cid + "/" + {"+": "add", "-": "sub", "*": "mul"}[op], "exec": {"kind": "det", "policy": "random", "seed": n, "partitions": 2}, "steps": st}
+            out.append((case["id"], case, ("dec", p1, s1, p2, s2, pairs, op)))
     return out
 
 
 def judge_dec(chk, case, res, ex):
-    _, p1, s1, p2, s2, pairs = ex
+    _, p1, s1, p2, s2, pairs, op = ex
     cid = case["id"]
-    if res is not None and "steps" in res:
-        # create table may legitimately fail (unsupported precision/scale combination)
-        st0 = res["steps"][0]
-        if st0["outcome"] == "error":
-            chk.count("dec_type_rejected")
-            return
-    if res is not None and "steps" in res and res["steps"][1]["outcome"] != "rows":
-        # loading the operands failed (literal -> DECIMAL cast): that is C13's subject, not arithmetic
-        chk.inconc("decimal operands could not be loaded (cast failed; see C13)")
+    if res is None or "not_run" in res or "fatal" in res:
+        chk.inconc("case not run")
         return
-    if bad_outcome(chk, case, res, cid):
+    if "died" in res:
+        chk.violation(outcome_signature(res), f"{cid}: process died: {json.dumps(res['died'])[:400]}", {"cases": [case]})
         return
     steps = res["steps"]
+    if steps[0]["outcome"] == "error":
+        chk.count("dec_type_rejected")      # create table may legitimately fail (unsupported precision/scale combination)
+        return
+    if steps[1]["outcome"] != "rows":
+        chk.inconc("decimal operands could not be loaded (cast failed; see C13)")
+        return
     if steps[2]["outcome"] != "rows":
         chk.inconc("decimal operands could not be read back")
         return
@@ -460,47 +466,78 @@ def judge_dec(chk, case, res, ex):
         if dec_unscaled(ea) != (a, p1, s1) or dec_unscaled(eb) != (b, p2, s2):
             chk.inconc("decimal operand does not read back as written (cast; see C13)")
             return
-    for k, op in enumerate("+-*"):
-        st = steps[3 + k]
+    d = steps[3]
+    m = re.search(r"Decimal(64|128)\((\d+),(-?\d+)\)", d["rows"][0][1]) if d["outcome"] == "rows" and d.get("rows") else None
+    if d["outcome"] == "panic":
+        chk.violation(outcome_signature(d), f"{cid}: panic while binding: {d.get('panic_msg')} @ {d.get('panic_loc')}", {"cases": [case]})
+        return
+    if not m:
+        chk.count("dec_op_does_not_bind")
+        return
+    width, rp, rs = int(m.group(1)), int(m.group(2)), int(m.group(3))
+
+    def judge_value(desc, g, v):
+        if not isinstance(g, dict) or "d" not in g:
+            chk.violation({"kind": "wrong-value", "op": "dec" + op, "what": "non-decimal or NULL result"}, f"{desc} -> {g}", {"cases": [case]})
+            return False
+        u, p_, s_ = dec_unscaled(g)
+        if Fraction(u, 10 ** s_) != v:
+            chk.violation({"kind": "wrong-value", "op": "dec" + op, "what": "inexact"}, f"{desc} = {g} (announced Decimal{width}({rp},{rs})); exact {v}", {"cases": [case]})
+            return False
+        if len(str(abs(u))) > rp and u != 0:
+            chk.violation({"kind": "precision-violation", "op": "dec" + op}, f"{desc} = {g}: more digits than the announced Decimal{width}({rp},{rs})", {"cases": [case]})
+            return False
+        return True
+
+    exact_vals = {}
+    all_fit = True
+    for i, (a, b) in enumerate(pairs):
+        fa, fb = Fraction(a, 10 ** s1), Fraction(b, 10 ** s2)
+        v = fa + fb if op == "+" else fa - fb if op == "-" else fa * fb
+        exact_vals[i] = v
+        scaled = v * 10 ** rs
+        fits = scaled.denominator == 1 and abs(int(scaled)) < 10 ** rp
+        if op in "+-":
+            # operands are first cast to the result type: they must fit it as well
+            fits = fits and abs(a) * 10 ** (rs - s1) < 10 ** rp and abs(b) * 10 ** (rs - s2) < 10 ** rp
+        all_fit = all_fit and fits
+        st = steps[4 + i]
+        if st["outcome"] == "skipped":
+            return
         chk.evaluated()
-        exact_vals = {}
-        for i, (a, b) in enumerate(pairs):
-            fa, fb = Fraction(a, 10 ** s1), Fraction(b, 10 ** s2)
-            exact_vals[i] = fa + fb if op == "+" else fa - fb if op == "-" else fa * fb
+        desc = f"{cid}: decimal({p1},{s1}) {dec_lit(a, s1)} {op} decimal({p2},{s2}) {dec_lit(b, s2)}"
+        if st["outcome"] == "panic":
+            chk.violation(outcome_signature(st), f"{desc}: panic {st.get('panic_msg')} @ {st.get('panic_loc')}", {"cases": [case]})
+            return
+        if st["outcome"] in ("deadlock", "diverged", "timeout"):
+            chk.violation({"kind": "outcome", "class": st["outcome"], "what": "dec"}, f"{desc}: {st['outcome']}", {"cases": [case]})
+            return
         if st["outcome"] == "error":
-            # acceptable only if some pair's exact result is unrepresentable in the result type: we do not know the
-            # type when the statement fails, so require that some exact result needs > 38 digits, or > the
-            # precision announced by DESCRIBE-equivalent (unknown) -> treat as inconclusive unless clearly wrong
-            maxdig = max(len(str(abs(int(v * 10 ** (s1 + s2 if op == '*' else max(s1, s2)))))) for v in exact_vals.values())
-            chk.count("dec_stmt_error")
-            if maxdig <= min(18, max(p1, p2)):
-                chk.violation({"kind": "unexpected-error", "where": "dec", "op": op}, f"{cid} {op}: error {st.get('error')} although every exact result has <= {maxdig} digits", {"cases": [case]})
+            if fits:
+                chk.violation({"kind": "unexpected-error", "where": "dec", "op": op}, f"{desc}: error {(st.get('error') or '').splitlines()[0][:160]} although the exact result {v} and both operands fit the announced Decimal{width}({rp},{rs})", {"cases": [case]})
+            else:
+                chk.count("dec_pair_error_expected")
             continue
-        if st["outcome"] != "rows":
+        if st["outcome"] != "rows" or len(st["rows"]) != 1:
             continue
-        tname = st["schema"][1][1]
+        if judge_value(desc, st["rows"][0][1], v):
+            chk.nontrivial(("dec", p1, s1, p2, s2, op, (a, b)))
+    # the whole-table statement: same values, or an error if some pair does not fit
+    st = steps[4 + len(pairs)]
+    chk.evaluated()
+    if st["outcome"] == "panic":
+        chk.violation(outcome_signature(st), f"{cid}: panic in the whole-table statement: {st.get('panic_msg')} @ {st.get('panic_loc')}", {"cases": [case]})
+    elif st["outcome"] == "error":
+        chk.count("dec_stmt_error")
+        if all_fit:
+            chk.violation({"kind": "unexpected-error", "where": "dec", "op": op}, f"{cid}: whole-table {op} fails ({(st.get('error') or '').splitlines()[0][:160]}) although every pair fits the announced Decimal{width}({rp},{rs})", {"cases": [case]})
+    elif st["outcome"] == "rows":
         got = {r[0]: r[1] for r in st["rows"]}
         for i, v in exact_vals.items():
-            g = got.get(i)
-            if g is None or not isinstance(g, dict) or "d" not in g:
-                chk.violation({"kind": "wrong-value", "op": "dec" + op, "what": "non-decimal or NULL result"}, f"{cid} {op}: pair {pairs[i]} -> {g} type {tname}", {"cases": [case]})
+            if not judge_value(f"{cid} (whole table) pair {pairs[i]}", got.get(i), v):
                 break
-            u, p, s = dec_unscaled(g)
-            digits = len(str(abs(u)))
-            if Fraction(u, 10 ** s) != v:
-                chk.violation({"kind": "wrong-value", "op": "dec" + op, "what": "inexact"},
-                              f"{cid} {op}: decimal({p1},{s1}) {dec_lit(pairs[i][0], s1)} {op} decimal({p2},{s2}) {dec_lit(pairs[i][1], s2)} = {g} ({tname}); exact {v}", {"cases": [case]})
-                break
-            m = re.search(r"\((\d+),(-?\d+)\)", tname)
-            ann_p = int(m.group(1)) if m else p
-            if digits > ann_p and u != 0:
-                chk.violation({"kind": "precision-violation", "op": "dec" + op},
-                              f"{cid} {op}: decimal({p1},{s1}) {dec_lit(pairs[i][0], s1)} {op} decimal({p2},{s2}) {dec_lit(pairs[i][1], s2)} = {g}: {digits} digits exceed the announced {tname}", {"cases": [case]})
-                break
-            # (agreement of the value's own (p,s) with the announced type is C18's business)
-            chk.nontrivial(("dec", p1, s1, p2, s2, op, pairs[i]))
         chk.count("dec_ops_checked")
-    chk.sample({"case": cid, "sql": case["steps"][3]["sql"], "types": [f"decimal({p1},{s1})", f"decimal({p2},{s2})"], "first_pair": [dec_lit(pairs[0][0], s1), dec_lit(pairs[0][1], s2)]}, cap=12)
+    chk.sample({"case": cid, "sql": case["steps"][-1]["sql"], "types": [f"decimal({p1},{s1})", f"decimal({p2},{s2})"], "announced": f"Decimal{width}({rp},{rs})"}, cap=12)
 
 
 # ---- aggregates ---------------------------------------------------------------
